@@ -56,7 +56,7 @@ class Mismatch(Exception):
         self.what = what
 
 
-def random_diagram(rng):
+def random_diagram(rng, derived_keys=False):
     d = bp.Diagram()
     d.component = 'Comp'
     d.enums = [('Color', ['Red', 'Green', 'Blue'], 'pkg')]
@@ -75,6 +75,11 @@ def random_diagram(rng):
         idents = [['Id']]
         if len(attrs) > 2 and rng.random() < 0.5:
             idents.append([a.name for a in attrs[1:3] if a.derived is None] or ['Id'])
+        if derived_keys:
+            # an identifier made of a derived attribute (other classes may refer to it)
+            ders = [a.name for a in attrs if a.derived is not None]
+            if ders:
+                idents.append([ders[0]])
         d.classes.append(bp.Cls('Class %d' % i, 'K%d' % i, i + 1, attrs, idents,
                                 where=rng.choice(('pkg', 'comp', 'comp'))))
     if rng.random() < 0.5:
